@@ -56,6 +56,21 @@ Example C06_odd_turnover_example :
   lot_cap g i 3000 = 700 /\ volume_cap g i 3000 150 = 500 /\ volume_cap g i 3000 0 = 700.
 Proof. repeat split; vm_compute; reflexivity. Qed.
 
+(* non-vacuity of the whole-lot statement: an odd-lot sale of 150 shares (a full liquidation), then an oversized market buy against a bar of
+   3000 shares at 25 % (allowance 750, in whole lots 700): 150 + 500 are traded - inside 700, where the old arithmetic reached 750 *)
+Example C06_whole_lots_example :
+  let g := {| m_matching := CurrentBarClose; m_price_limit := false; m_inactive_limit := false; m_volume_limit := true;
+              m_volume_percent := 1 # 4; m_slip := PriceRatio; m_slip_rate := 0 |} in
+  let i := {| i_lot := 100; i_mult := 1; i_tick := 1 # 100; i_listed_today := false |} in
+  let b := {| b_open := Some 10; b_close := Some 10; b_volume := Some 3000; b_turnover := Some 30000; b_limit_up := Some 11; b_limit_down := Some 9 |} in
+  let a sd q := {| a_g := g; a_i := i; a_bar := b; a_abar := b; a_pb := b; a_auction := false;
+                   a_o := {| mo_side := sd; mo_effect := Open; mo_limit := false; mo_price := 0; mo_qty := q; mo_filled := 0; mo_reserve := 0 |};
+                   a_fee := fun _ _ _ => 0; a_occ := fun _ => 0; a_avail := 0; a_ct := fun _ => 0 |} in
+  let ops := [MMatch 3 (a Sell 150); MMatch 3 (a Buy 10000000)] in
+  Forall (governed_lots 3%nat 3000 (1 # 4) 100) ops /\ fills_of 3 (ms_fills (mrun ops)) == 650 /\ tget (ms_turnover (mrun ops)) 3 = 650.
+Proof. cbv zeta. split; [|split; vm_compute; reflexivity].
+  repeat constructor; intros _; (repeat split; try reflexivity); vm_compute; reflexivity. Qed.
+
 (* non-vacuity: three market orders of 500 / 400 / 300 shares against a bar of 4250 shares at 25 % (cap 1000 after lot rounding):
    500 + 400 + 100 are traded, the booked turnover is 1000, and an update clears it *)
 Example C06_total_example :
